@@ -68,6 +68,8 @@ func streamCli(o *Out, r *rand.Rand, n int, thorough bool) {
 		// goroutines the script leaves behind do not keep the tool alive: vm.Execute returns when the top level statements are done
 		{"ok", "c = make(chan int64)\ngo func() {\n<-c\n}()"}, {"ok", "jobs = make(chan int64, 2)\ngo func() {\nfor j in jobs {\n}\n}()\njobs <- 1"},
 		{"ok", "c = make(chan int64)\ngo func() {\nc <- 1\n}()\nprintln(\"main done\")"}, {"runErr", "c = make(chan int64)\ngo func() {\n<-c\n}()\nthrow \"after go\""},
+		// a script that closes standard output itself (bundled os package) and ends without error: exit 0, what it printed before is there
+		{"exit", "os = import(\"os\")\nos.Stdout.Close()"}, {"exit", "os = import(\"os\")\nos.Stdout.Close()\nx = 1 + 1"},
 		{"exit", "os = import(\"os\")\nos.Exit(0)"}, {"exit", "os = import(\"os\")\nos.Exit(3)"},
 		{"parseErr", "x = ("}, {"parseErr", `s = "unterminated`}, {"parseErr", "if { }"}, {"parseErr", "1 +* 2"}, {"parseErr", "func("},
 	}
@@ -262,8 +264,12 @@ func streamCli(o *Out, r *rand.Rand, n int, thorough bool) {
 				wantExit = 3
 			}
 			if exit != wantExit || outS != want.String() {
+				what := fmt.Sprintf("called os.Exit(%d)", wantExit)
+				if strings.Contains(end.src, "Stdout.Close") {
+					what = "closed standard output and ended without an error (vm.Execute returns nil for it)"
+				}
 				o.Fail(Failure{Oracle: "cli-stdout", Key: "cli-stdout-lost-at-exit", Input: fmt.Sprintf("[%s args=%v] %q", supply, args, src),
-					Detail: fmt.Sprintf("the script printed %q and then called os.Exit(%d); the binary wrote %q and exited %d", want.String(), wantExit, outS, exit)})
+					Detail: fmt.Sprintf("the script printed %q and then %s; the binary wrote %q and exited %d (stderr %q)", want.String(), what, outS, exit, stderr.String())})
 			}
 			continue
 		}
